@@ -421,8 +421,8 @@ func replaySeq(w, foreign *world, e *big.Int, t Trans, res *hx.Result) {
 		res.Violation("seq-panic", "first call panicked: "+msg, hx.M{"case": t})
 		return
 	}
-	if err1 == nil {
-		res.Violation("seq-first-call-diverges", fmt.Sprintf("spec: %s %s fails, code: succeeded", t.Act1.Op, t.Act1.Res), hx.M{"case": t})
+	if wantOK := t.Act1.Res == "ok"; (err1 == nil) != wantOK {
+		res.Violation("seq-first-call-diverges", fmt.Sprintf("spec: %s -> %s, code: err=%v", t.Act1.Op, t.Act1.Res, err1), hx.M{"case": t})
 		return
 	}
 	if snap(wit) != before {
@@ -439,7 +439,7 @@ func replaySeq(w, foreign *world, e *big.Int, t Trans, res *hx.Result) {
 	got := hx.M{"class": errClass(err), "idx": after.idx, "t": after.t, "valid": w.valid(wit), "updated": after.up}
 	want := hx.M{"class": specClass(t.Act.Res), "idx": t.Pwit.Idx, "t": t.Pwit.T, "valid": t.Pwit.Good, "updated": t.Pwit.Up}
 	if got["class"] != want["class"] || got["idx"] != want["idx"] || got["t"] != want["t"] || got["valid"] != want["valid"] || got["updated"] != want["updated"] {
-		res.Violation("state-left-by-failed-call", fmt.Sprintf("after a failed %s (%v) Witness.Update: spec %s -> %v, code -> %v (err=%v)",
+		res.Violation("state-left-by-first-call", fmt.Sprintf("after %s (%v) Witness.Update: spec %s -> %v, code -> %v (err=%v)",
 			t.Act1.Op, err1, t.Act.Res, want, got, err), hx.M{"case": t, "observed": got, "expected": want})
 	}
 }
